@@ -237,7 +237,7 @@ class TD:
         return self._cmp(o, lambda a, b: a >= b)
 
     def __hash__(self) -> int:
-        return hash(("TD", int(self.us)))
+        return hash("TD") if isinstance(self.us, SymInt) else hash(("TD", int(self.us)))
 
     def __repr__(self) -> str:
         return f"TD(us={self.us!r})"
@@ -483,7 +483,8 @@ class DT:
         return self._cmp(o, lambda a, b: a >= b)
 
     def __hash__(self) -> int:
-        return hash(("DT", int(self.us), self.aware))
+        # constant for symbolic instants: dict / cache look-ups then decide by `==`, which forks symbolically
+        return hash(("DT", self.aware)) if isinstance(self.us, SymInt) else hash(("DT", int(self.us), self.aware))
 
     def __repr__(self) -> str:
         return f"DT(us={self.us!r}, off={self.off!r}, aware={self.aware})"
